@@ -967,4 +967,72 @@ theorem boundaries_map (g : Chunk → Chunk) (hst : ∀ c, (g c).start = c.start
   rw [h1]
   cases s.getLast? <;> simp [hsp]
 
+
+/-! ### the key of the merged data for a proper grouping -/
+
+theorem hasDup_false_of_nodup : ∀ (l : List Nat), l.Nodup → hasDup l = false := by
+  intro l
+  induction l with
+  | nil => intro _; rfl
+  | cons a as ih =>
+    intro h
+    have h' := List.nodup_cons.1 h
+    simp only [hasDup, Bool.or_eq_false_iff]
+    exact ⟨by simpa using h'.1, ih h'.2⟩
+
+theorem foldl_max_spec : ∀ (l : List Nat) (a : Nat),
+    (l.foldl max a = a ∨ l.foldl max a ∈ l) ∧ a ≤ l.foldl max a ∧ ∀ x ∈ l, x ≤ l.foldl max a := by
+  intro l
+  induction l with
+  | nil => intro a; simp
+  | cons b bs ih =>
+    intro a
+    obtain ⟨h1, h2, h3⟩ := ih (max a b)
+    simp only [List.foldl_cons, List.mem_cons]
+    refine ⟨?_, by omega, ?_⟩
+    · rcases h1 with h1 | h1
+      · rw [h1]
+        by_cases hab : a ≤ b
+        · right; left; omega
+        · left; omega
+      · right; right; exact h1
+    · intro x hx
+      rcases hx with rfl | hx
+      · omega
+      · exact h3 x hx
+
+theorem foldl_min_zero : ∀ (l : List Nat), l.foldl min 0 = 0 := by
+  intro l
+  induction l with
+  | nil => rfl
+  | cons b bs ih => simp only [List.foldl_cons, Nat.zero_min]; exact ih
+
+/-- a grouping whose chunk numbers, read in order, are `0, 1, …, n-1` (a partition of all chunks of the
+dependency into consecutive jobs, in order) is stored under the plain key of the target -/
+theorem mergeChunkNumber_partition (n : Nat) (groups : List (List Nat)) (hn : 1 ≤ n)
+    (h : groups.flatten = List.range n) : mergeChunkNumber n groups = .ok none := by
+  unfold mergeChunkNumber
+  simp only [h, hasDup_false_of_nodup _ List.nodup_range, Bool.false_eq_true, if_false]
+  obtain ⟨m, rfl⟩ : ∃ m, n = m + 1 := ⟨n - 1, by omega⟩
+  have hr : List.range (m + 1) = 0 :: (List.range m).map Nat.succ := List.range_succ_eq_map
+  have hmin : listMin (List.range (m + 1)) = some 0 := by
+    rw [hr]; simp only [listMin, foldl_min_zero]
+  have hmax : listMax (List.range (m + 1)) = some m := by
+    rw [hr]
+    simp only [listMax]
+    obtain ⟨h1, _, h3⟩ := foldl_max_spec ((List.range m).map Nat.succ) 0
+    congr 1
+    have hle : List.foldl max 0 ((List.range m).map Nat.succ) ≤ m := by
+      rcases h1 with h1 | h1
+      · omega
+      · simp only [List.mem_map, List.mem_range] at h1
+        obtain ⟨k, hk, hk'⟩ := h1
+        omega
+    cases m with
+    | zero => omega
+    | succ k =>
+      have := h3 (k + 1) (by simp only [List.mem_map, List.mem_range]; exact ⟨k, by omega, rfl⟩)
+      omega
+  simp [hmin, hmax, pure, Except.pure]
+
 end Strax.Copy
